@@ -7,4 +7,4 @@
      Json.v   enc/v1 Cipher / KeyAlgorithm JSON (byte level)
      Glue.v   layer B: type switches / assertions around third-party parsers (finite)
    cron.Parse/Next and enc/v1 readHeader/processSegments are modelled in coq/C04 and coq/C01. *)
-From Kit.C07 Require Export GoSem Iso Pad Sym Json Glue.
+From Kit.C07 Require Export GoSem Iso Pad Sym Json Glue Header Keys.
